@@ -70,6 +70,7 @@ pub fn gen_stack_scenario(rng: &mut Rng, tier: Tier, stats: &mut GenStats, prop:
         13..=16 => LinkMode::Safe,
         _ => LinkMode::All,
     };
+    g.foreign_pct = 10;
     let mut tree = g.tree(links);
     let model0 = Model::from_tree(&tree).unwrap();
     let cwd = g.pick_dir(&model0, 50);
